@@ -117,7 +117,7 @@ def authoritative_pairs(r: R) -> Dict[str, str]:
             pairs[fi.qual] = ns[0]
         elif not ns and any("leggauss" in seg(c) for c in ast.walk(fi.node) if isinstance(c, ast.Call)):
             # shares np.polynomial.legendre.leggauss with the node function of the same name
-            cand = [g.qual for g in r.prog.cls("NodeSample").methods.values() if any("leggauss" in seg(c) for c in ast.walk(g.node) if isinstance(c, ast.Call))]
+            cand = [g.qual for nm_, g in r.prog.cls("NodeSample").methods.items() if not nm_.startswith("_") and any("leggauss" in seg(c) for c in ast.walk(g.node) if isinstance(c, ast.Call))]
             if len(cand) == 1:
                 pairs[fi.qual] = cand[0]
     return pairs
@@ -128,6 +128,48 @@ def funcrefs(ctx, expr) -> List[str]:
     if v is None:
         return []
     return sorted(t.split(":", 1)[1] for t in v.ty if t.startswith("func:"))
+
+
+def paired_registry(ctx, fi):
+    """a registry that holds nodes function and weights function of a method side by side:
+    {key: (NodeSample.f, IntegratorArray.g)} -> (assignment, {key: nodes ref}, {key: weights ref}); None when there is none"""
+    for s in ast.walk(fi.node):
+        if not (isinstance(s, ast.Assign) and isinstance(s.value, ast.Dict) and isinstance(s.targets[0], ast.Name) and s.value.keys):
+            continue
+        nrefs, wrefs = {}, {}
+        for k, v in zip(s.value.keys, s.value.values):
+            if not (isinstance(k, ast.Constant) and isinstance(v, ast.Tuple) and len(v.elts) == 2):
+                break
+            frs = [funcrefs(ctx, e) for e in v.elts]
+            if not all(len(f) == 1 for f in frs):
+                break
+            a, b = frs[0][0], frs[1][0]
+            if a.startswith(IA) and b.startswith(NS):
+                a, b = b, a
+            if not (a.startswith(NS) and b.startswith(IA)):
+                break
+            nrefs[k.value], wrefs[k.value] = a, b
+        else:
+            return s, nrefs, wrefs
+    return None
+
+
+def node_registry(ctx, fi):
+    """{method name: NodeSample function} of a consumer, whichever way its registry is written"""
+    pr = paired_registry(ctx, fi)
+    if pr is not None:
+        return pr[0].targets[0].id, pr[1]
+    for s in ast.walk(fi.node):
+        if isinstance(s, ast.Assign) and isinstance(s.value, ast.Dict) and isinstance(s.targets[0], ast.Name):
+            refs = {}
+            for k, v in zip(s.value.keys, s.value.values):
+                if isinstance(k, ast.Constant) and isinstance(k.value, str):
+                    fr = funcrefs(ctx, v)
+                    if len(fr) == 1 and fr[0].startswith(NS):
+                        refs[k.value] = fr[0]
+            if refs and len(refs) == len(s.value.keys):
+                return s.targets[0].id, refs
+    return None
 
 
 def pairing(r: R, chk, consumers: List[str], floor: int):
@@ -150,6 +192,27 @@ def pairing(r: R, chk, consumers: List[str], floor: int):
                             refs[k.value] = fr[0]
                 if refs:
                     dicts[s.targets[0].id] = (s, refs)
+        pr = paired_registry(ctx, fi)
+        if pr is not None:
+            ps_, nrefs, wrefs = pr
+            pname = ps_.targets[0].id
+            n += 1
+            chk.ob("PAIR", f"{q}: the registry `{pname}` holds nodes and weights of a method side by side", True, loc=r.loc(ctx, ps_))
+            for key in sorted(nrefs):
+                okp = auth.get(wrefs[key]) == nrefs[key]
+                n += 1
+                chk.ob("PAIR", f"{q}: method {key!r}: {wrefs[key].split('.')[-1]} weights with {nrefs[key].split('.')[-1]} nodes", okp, loc=r.loc(ctx, ps_),
+                       detail="" if okp else f"{q}: for {key!r} the weights of {wrefs[key]} (built for {auth.get(wrefs[key])}) are applied at the nodes of {nrefs[key]}: the quadrature is wrong for every non-trivial integrand", func=q, construct=f"registry pairs {key} wrongly")
+            # the two functions taken out of one entry are called with the same size
+            unpack = [a for a in ast.walk(fi.node) if isinstance(a, ast.Assign) and isinstance(a.value, ast.Subscript) and isinstance(a.value.value, ast.Name) and a.value.value.id == pname and isinstance(a.targets[0], ast.Tuple) and len(a.targets[0].elts) == 2 and all(isinstance(e, ast.Name) for e in a.targets[0].elts)]
+            for a in unpack:
+                f1, f2 = (e.id for e in a.targets[0].elts)
+                c1 = [c for c in ast.walk(fi.node) if isinstance(c, ast.Call) and isinstance(c.func, ast.Name) and c.func.id == f1]
+                c2 = [c for c in ast.walk(fi.node) if isinstance(c, ast.Call) and isinstance(c.func, ast.Name) and c.func.id == f2]
+                if len(c1) == 1 and len(c2) == 1:
+                    oks = [seg(x) for x in c1[0].args] == [seg(x) for x in c2[0].args]
+                    n += 1
+                    chk.ob("PAIR", f"{q}: nodes and weights are requested with the same key and the same size", oks, loc=r.loc(ctx, c2[0]), detail="" if oks else f"{q}: `{seg(c1[0], 40)}` vs `{seg(c2[0], 40)}`: a shorter weight tuple is silently truncated by zip", func=q, construct="size / key mismatch between nodes and weights")
         nd = {k: v for k, v in dicts.items() if all(x.startswith(NS) for x in v[1].values())}
         wd = {k: v for k, v in dicts.items() if all(x.startswith(IA) for x in v[1].values())}
         if nd and wd:
@@ -235,14 +298,8 @@ def default_open(r: R, chk, consumers: List[str]):
             chk.note(f"DEFAULT-OPEN: {q} evaluates the piece of each span — no constraint on its default rule")
             continue
         nreq += 1
-        reg = {}
-        for s in ast.walk(fi.node):
-            if isinstance(s, ast.Assign) and isinstance(s.value, ast.Dict):
-                for k, v in zip(s.value.keys, s.value.values):
-                    if isinstance(k, ast.Constant):
-                        fr = funcrefs(ctx, v)
-                        if len(fr) == 1 and fr[0].startswith(NS):
-                            reg[k.value] = fr[0]
+        nr = node_registry(ctx, fi)
+        reg = dict(nr[1]) if nr is not None else {}
         for node in r.stmt_nodes(ctx):
             s = node.ast
             if not (isinstance(s, ast.Assign) and len(s.targets) == 1 and isinstance(s.targets[0], ast.Name) and s.targets[0].id == "method" and isinstance(s.value, ast.Constant) and isinstance(s.value.value, str)):
